@@ -41,6 +41,7 @@ EXPLANATION = (
     "one urllib.parse.unquote application lies on the def-use chain from request.path to the "
     "join with the root; (P5) the static and upload containment predicates are structurally "
     "equal modulo the root attribute. Races and resolve() on cyclic links are not decided."
+    ' (P6) the directory-listing generator (helpers inlined) reads no entry content (open / read_text / read_bytes) unless a dominating resolve().is_relative_to(...) test on that entry was passed.'
 )
 
 HANDLER = "server.handler:StaticFileHandler"
@@ -400,6 +401,57 @@ def rule_p5(chk: Check) -> None:
     chk.ob("P5", "containment predicates compared (advisory)", True, "agree" if ok else "DIFFER", nontrivial=False)
 
 
+def rule_p6(chk: Check) -> None:
+    """The listing generator is handed a contained directory, but its *entries*
+    may be symbolic links that leave the root.  The handler refuses to serve
+    such an entry; the listing must not read its content either (names and
+    sizes are the directory's own data, a title line is the target's)."""
+    chk.rule("P6", "the directory-listing generator never reads the content of an entry (open / read_text / read_bytes) unless that entry was resolved and tested to lie inside the listed directory")
+    mi = chk.proj.module("content.gemtext")
+    entry = mi.functions.get("generate_directory_listing")
+    if entry is None:
+        chk.ob("P6", "no listing generator", True, nontrivial=False)
+        return
+    from ..cfg import inline_local
+
+    g = Builder(chk.proj, inline_local, 3).build(entry)
+    n = 0
+    ok = True
+    for node in g.nodes:
+        if node.ast is None or node.kind not in ("stmt", "test", "with"):
+            continue
+        for c in calls(node.ast if not isinstance(node.ast, ast.withitem) else node.ast.context_expr):
+            mc = method_call(c)
+            var = None
+            if mc and mc[1] in CONTENT_USES:
+                var = norm(mc[0])
+            elif dotted(c.func) == "open" and c.args:
+                var = norm(c.args[0])
+            if var is None:
+                continue
+            n += 1
+            # a dominating containment test on this value in the same activation
+            blocked = set()
+            for t in g.nodes:
+                if t.kind == "test" and t.ast is not None and t.stack == node.stack:
+                    a, flip = t.ast, False
+                    while isinstance(a, ast.UnaryOp) and isinstance(a.op, ast.Not):
+                        a, flip = a.operand, not flip
+                    if isinstance(a, ast.Call) and method_call(a) and method_call(a)[1] == "is_relative_to" and "resolve" in norm(a) and var.split(".")[0] in norm(a):
+                        lab = "F" if flip else "T"
+                        blocked |= {(t.id, b, l2) for b, l2 in g.succ[t.id] if l2 == lab}
+            good = bool(blocked) and node.id not in g.reach([g.entry.id], blocked_edges=blocked)
+            if not good:
+                ok = False
+                chk.finding(
+                    "P6", node.func.key, f"listing-reads-entry:{norm(c)[:50]}",
+                    f"the directory listing reads the content of an entry with `{norm(c)[:70]}`; an entry may be a symbolic link to a file outside the document root (the handler answers 51 for it), so text of that file is served inside the listing",
+                    node.where(),
+                )
+            chk.ob("P6", f"{node.func.key}: `{norm(c)[:50]}` reads a contained entry", good)
+    chk.ob("P6", "content reads in the listing generator examined", ok, f"{n} reads", nontrivial=False)
+
+
 def run(chk: Check) -> None:
     ci = chk.proj.cls(HANDLER)
     preds = _safe_pred_methods(ci)
@@ -408,5 +460,6 @@ def run(chk: Check) -> None:
     rule_p3(chk, ci)
     rule_p4(chk, ci)
     rule_p5(chk)
+    rule_p6(chk)
     chk.trusted = ["CPython ast parser", "engine CFG / reaching definitions", "pathlib: resolve() follows every symlink; relative_to is component-wise"]
     chk.assumptions = ["no concurrent modification of the tree between check and use"]
